@@ -129,7 +129,30 @@ func checkC19(t *testing.T, rq *Request, rec *Recorder) []Diff {
 		reasons = append(reasons, fmt.Sprintf("port %d not in 1..65535", effPort))
 	}
 	nRuns := p.Queries + p.E2e
+	if o.Wire != nil && o.Wire.Overrun {
+		add("never-ends", "request was still sending/reading after %v of virtual time (stopped by the harness watchdog): params %+v", o.Wire.MaxVirtual, p)
+	}
 	if o.Err != nil {
+		// a rejected (or failed) request may have emitted part of the range, but never a TTL outside it or a TTL twice
+		if o.Wire != nil {
+			for h, probes := range sinkProbes(o.Wire) {
+				seen := map[int]int{}
+				for _, pr := range probes {
+					seen[int(pr.TTL)]++
+				}
+				single := len(seen) == 1 && seen[maxTTL] == 1
+				for ttl, n := range seen {
+					if (ttl < minTTL || ttl > maxTTL) && !single {
+						add("ttl-outside-range", "failed request: sink %d probed TTL %d outside the requested %d..%d (err: %v)", h, ttl, minTTL, maxTTL, o.Err)
+						break
+					}
+					if n != 1 {
+						add("ttl-repeated", "failed request: sink %d probed TTL %d %d times", h, ttl, n)
+						break
+					}
+				}
+			}
+		}
 		labels = append(labels, "outcome:rejected")
 		rec.Case(scenarioKey(rq), nt, map[string]any{"request": rq, "err": fmt.Sprint(o.Err)}, labels...)
 		return ds
